@@ -141,6 +141,9 @@ func newC11World() *c11world {
 			w.wires = append(w.wires, b)
 		}
 	}
+	// inputs that hold MORE than the one value a one-shot decode takes (a second message, trailing octets):
+	// what the call leaves unread is not the next call's input
+	w.wires = append(w.wires, append(append([]byte{}, w.wires[1]...), 0x03, 'e', 'n', 'd'), []byte{0x91, 0x92}, append(append([]byte{}, w.wires[3]...), w.wires[0]...))
 	ptrReg, _ := hspec.Encode(hspec.Object("ptr.Registered", []string{"a", "s"}, hspec.Int(3), hspec.String("p")), hspec.Canonical{}, hspec.EncOpts{})
 	w.wires = append(w.wires, ptrReg)
 	unknownCls, _ := hspec.Encode(hspec.Object("no.such.Class", []string{"a", "b"}, hspec.Int(1), hspec.Int(2)), hspec.Canonical{}, hspec.EncOpts{})
@@ -185,7 +188,7 @@ func newC11World() *c11world {
 	for i := 0; i < 250; i++ {
 		nested40 = append(nested40, 'Z')
 	}
-	legacyBin := []byte{0x62, 0x00, 0x02, 'h', 'i', 0x23, 'l', 'l', 'o'} // a legacy non-final binary chunk 'b' in a message WITHOUT class definitions
+	legacyBin := []byte{0x62, 0x00, 0x02, 'h', 'i', 0x23, 'l', 'l', 'o'}                           // a legacy non-final binary chunk 'b' in a message WITHOUT class definitions
 	javaList := append(append([]byte{0x72, 0x13}, "java.util.ArrayList"...), 0x01, 'a', 0x01, 'b') // a typed list whose type nobody registered
 	// (the two unregistered typed lists go first: a probe that reads a registered typed list may consume what the history left behind)
 	w.decProbes = [][]byte{javaList, unknownList, p1, p2, ptrReg, nested40, legacyBin, {0x60}, {0x51, 0x90}, {0x72, 0x90, 0x90, 0x91}, {'O', 0x90}, {0x79, 0x51, 0x91}}
